@@ -195,11 +195,33 @@ def h17c(c, mode="P"):
         c.tag("kind", kind); c.tag("currency", cur)
         fl, (sclient,), (strategy,) = cm.new_sim(client_kwargs=dict(min_bet_validation=mbv))
         if ckind == "betfair":
-            client = BetfairClient(betting_client=cm.NS(lightweight=False, username="live"), min_bet_validation=mbv)
+            # the account's currency comes from the exchange through the real update_account_details(); a later poll may fail
+            # (API error swallowed by the client): the account is still the same account
+            from betfairlightweight.exceptions import BetfairError
+            polls = {"n": 0}
+            failing = c.choose("account_poll_fails_after_login", [False, True])
+
+            def details():
+                polls["n"] += 1
+                if failing and polls["n"] > 1:
+                    raise BetfairError("scripted")
+                return cm.NS(currency_code=cur)
+
+            def funds():
+                if failing and polls["n"] > 1:
+                    raise BetfairError("scripted")
+                return cm.NS(available_to_bet_balance=1000.0)
+
+            client = BetfairClient(betting_client=cm.NS(lightweight=False, username="live", account=cm.NS(get_account_details=details, get_account_funds=funds)),
+                                   min_bet_validation=mbv)
             client.execution = fl.simulated_execution
+            client.update_account_details()
+            if failing:
+                client.update_account_details()
+                c.cover("failed-account-poll")
         else:
             client = sclient
-        client.account_details = cm.NS(currency_code=cur)
+            client.account_details = cm.NS(currency_code=cur)
         par = currency_parameters[cur]
         market = cm.add_market(fl, cm.book([cm.runner(1)]))
         if mode == "P":
